@@ -342,6 +342,7 @@ func runRecv(in input, sockPath string) hlib.Case {
 	// the socket(s)
 	var sf statsd.SocketFactory
 	var send func(string) error
+	var srcIPs []net.IP // udp: source address of datagram i is srcIPs[i % len]
 	var script *scriptConn
 	var cleanup []func()
 	defer func() {
@@ -378,12 +379,36 @@ func runRecv(in input, sockPath string) hlib.Case {
 			}
 			return reuseport.ListenPacket("udp", addr) // as statsd.socketFactory does with conn-per-reader
 		}
-		cl, err := net.Dial("udp", addr)
+		// three senders with different source addresses (all of 127/8 is local): datagram i comes
+		// from 127.0.0.(1 + i mod 3), so one batch holds datagrams of several senders
+		raddr, err := net.ResolveUDPAddr("udp", addr)
 		if err != nil {
-			return fail("dial udp: " + err.Error())
+			return fail("resolve udp: " + err.Error())
 		}
-		cleanup = append(cleanup, func() { cl.Close() })
-		send = func(m string) error { _, err := cl.Write([]byte(m)); return err }
+		var clients []*net.UDPConn
+		for k := 1; k <= 3; k++ {
+			cl, err := net.DialUDP("udp", &net.UDPAddr{IP: net.IPv4(127, 0, 0, byte(k))}, raddr)
+			if err != nil {
+				if k == 1 {
+					return fail("dial udp: " + err.Error())
+				}
+				break // no such local address here: fewer senders
+			}
+			clients = append(clients, cl)
+			srcIPs = append(srcIPs, net.IPv4(127, 0, 0, byte(k)))
+		}
+		cleanup = append(cleanup, func() {
+			for _, cl := range clients {
+				cl.Close()
+			}
+		})
+		nsent := 0
+		send = func(m string) error {
+			cl := clients[nsent%len(clients)]
+			nsent++
+			_, err := cl.Write([]byte(m))
+			return err
+		}
 	case "unixgram":
 		conn, err := net.ListenPacket("unixgram", sockPath)
 		if err != nil {
@@ -424,7 +449,12 @@ func runRecv(in input, sockPath string) hlib.Case {
 		sf = func() (net.PacketConn, error) { return script, nil }
 		send = func(m string) error { script.push(m); return nil }
 	}
-	dr := statsd.NewDatagramReceiver(ch, sf, readers, batch)
+	// the receiver writes to rch; a relay records every batch as it is (nil slots, sender, bytes,
+	// timestamp) and passes the very same slice on to the parser's channel
+	rch := make(chan []*statsd.Datagram)
+	rel := &relay{}
+	go rel.run(ctx, rch, ch)
+	dr := statsd.NewDatagramReceiver(rch, sf, readers, batch)
 
 	nlines, nbytes := 0, 0
 	coqMsgs := make([]string, len(msgs))
@@ -506,6 +536,10 @@ func runRecv(in input, sockPath string) hlib.Case {
 			problem = fmt.Sprintf("receiver counted %d of %d datagrams", received(), sent)
 		}
 	}
+	// the receiver counts a batch before it hands it over: wait until the relay has seen all of them
+	if problem == "" && !waitFor(func() bool { return rel.count() >= sent }) {
+		problem = fmt.Sprintf("receiver handed over %d of %d datagrams read", rel.count(), sent)
+	}
 	if problem == "" && !waitFor(func() bool { return accounted() >= uint64(nlines) }) {
 		problem = fmt.Sprintf("line accounting: %d of %d lines counted after %s", accounted(), nlines, stepTimeout)
 	}
@@ -517,7 +551,18 @@ func runRecv(in input, sockPath string) hlib.Case {
 		c.Monitors = append(c.Monitors, "receiver/parser path: "+problem)
 		outcome = "stuck"
 	} else {
-		c.Coq = hlib.App("KDgram", hlib.Bytes(in.NS), hlib.List(coqMsgs), dgramOracle(msgs), hlib.App("DCounts", hlib.N(m), hlib.N(e), hlib.N(b)))
+		counts := hlib.App("DCounts", hlib.N(m), hlib.N(e), hlib.N(b))
+		c.Coq = hlib.App("KDgram", hlib.Bytes(in.NS), hlib.List(coqMsgs), dgramOracle(msgs), counts)
+		if readers == 1 {
+			// one reader: the batches arrive in the order of the reads; compare them with Model/Receiver.v
+			seenBatches := rel.snapshot()
+			coq, mons := recvCase(in, msgs, seenBatches, batch, counts, srcIPs)
+			c.Monitors = append(c.Monitors, mons...)
+			if coq != "" {
+				c.Coq = coq
+			}
+			obs["batch_sizes"] = batchSizes(seenBatches)
+		}
 		if int(m+e+b) != nlines {
 			c.Monitors = append(c.Monitors, fmt.Sprintf("line accounting: %d metrics + %d events + %d bad != %d lines", m, e, b, nlines))
 		}
@@ -562,4 +607,160 @@ func sizes(msgs []string) []int {
 		out = out[:60]
 	}
 	return out
+}
+
+// ---------------------------------------------------------------------------------------
+// what the receiver handed over
+
+type seenDatagram struct {
+	isNil bool
+	ip    string
+	msg   string
+	ts    gostatsd.Nanotime
+}
+
+type relay struct {
+	mu      sync.Mutex
+	batches [][]seenDatagram
+}
+
+func (r *relay) run(ctx context.Context, from <-chan []*statsd.Datagram, to chan<- []*statsd.Datagram) {
+	for {
+		select {
+		case <-ctx.Done():
+			return
+		case b := <-from:
+			rec := make([]seenDatagram, len(b))
+			for i, dg := range b {
+				if dg == nil {
+					rec[i].isNil = true
+					continue
+				}
+				rec[i] = seenDatagram{ip: string(dg.IP), msg: string(dg.Msg), ts: dg.Timestamp}
+			}
+			r.mu.Lock()
+			r.batches = append(r.batches, rec)
+			r.mu.Unlock()
+			select {
+			case to <- b:
+			case <-ctx.Done():
+				return
+			}
+		}
+	}
+}
+
+func (r *relay) count() int {
+	r.mu.Lock()
+	defer r.mu.Unlock()
+	n := 0
+	for _, b := range r.batches {
+		n += len(b)
+	}
+	return n
+}
+
+func (r *relay) snapshot() [][]seenDatagram {
+	r.mu.Lock()
+	defer r.mu.Unlock()
+	return append([][]seenDatagram(nil), r.batches...)
+}
+
+func batchSizes(bs [][]seenDatagram) []int {
+	out := make([]int, len(bs))
+	for i, b := range bs {
+		out[i] = len(b)
+	}
+	if len(out) > 80 {
+		out = out[:80]
+	}
+	return out
+}
+
+// coqAddr prints a net.Addr as Model/Receiver.addr; the IP text comes from net.IP.String().
+func coqAddr(a net.Addr) string {
+	switch x := a.(type) {
+	case nil:
+		return "RaNil"
+	case *net.UDPAddr:
+		return hlib.App("RaUdp", hlib.Bytes(x.IP.String()))
+	default:
+		return "RaOther"
+	}
+}
+
+// recvCase builds the KRecv term: the script of ReadBatch returns (for a real socket the grouping
+// is the observed one: which datagrams one recvmmsg returned together is the kernel's choice),
+// the observed batches, the counters.  Direct monitors: bytes handed over = bytes sent, in
+// order; one timestamp per batch, non-decreasing.
+func recvCase(in input, msgs []string, seen [][]seenDatagram, batch int, counts string, srcIPs []net.IP) (string, []string) {
+	var mons []string
+	total := 0
+	for _, b := range seen {
+		total += len(b)
+	}
+	if total != len(msgs) {
+		return "", []string{fmt.Sprintf("receiver handed over %d datagrams in %d batches, %d were read", total, len(seen), len(msgs))}
+	}
+	addrOf := func(i int) net.Addr { // as the worker's sockets / script report it
+		switch in.Sock {
+		case "udp":
+			return &net.UDPAddr{IP: srcIPs[i%len(srcIPs)]}
+		case "unixgram":
+			return &net.UnixAddr{}
+		default:
+			if i%7 == 6 {
+				return &net.UnixAddr{Name: "weird", Net: "unixgram"}
+			}
+			return &net.UDPAddr{IP: net.IPv4(10, 9, 8, byte(i)), Port: 1000 + i}
+		}
+	}
+	errAt := map[int]bool{}
+	if in.Sock == "script" {
+		for _, e := range in.Errs {
+			errAt[e] = true
+		}
+	}
+	nbytes := 0
+	for _, m := range msgs {
+		nbytes += len(m)
+	}
+	withBody := nbytes <= 3000
+	var script, obs []string
+	i := 0
+	var prevTS gostatsd.Nanotime
+	for k, b := range seen {
+		var ms, od []string
+		for j, d := range b {
+			if errAt[i] {
+				script = append(script, "RdErr")
+			}
+			ms = append(ms, hlib.App("RMsg", hlib.Bytes(msgs[i]), coqAddr(addrOf(i))))
+			if d.isNil {
+				od = append(od, "ObsNil")
+				mons = append(mons, fmt.Sprintf("nil slot %d in batch %d handed to the parser", j, k))
+			} else {
+				if d.msg != msgs[i] {
+					mons = append(mons, fmt.Sprintf("datagram %d handed over with %d bytes that are not the %d bytes read", i, len(d.msg), len(msgs[i])))
+				}
+				if d.ts != b[0].ts && !b[0].isNil {
+					mons = append(mons, fmt.Sprintf("batch %d carries two timestamps", k))
+				}
+				body := "None"
+				if withBody {
+					body = hlib.Option(hlib.Bytes(d.msg), true)
+				}
+				od = append(od, hlib.App("ObsD", hlib.Bytes(d.ip), hlib.N(uint64(len(d.msg))), body, hlib.Z(int64(k))))
+				if d.ts < prevTS {
+					mons = append(mons, fmt.Sprintf("timestamp of batch %d is before the previous batch", k))
+				}
+				prevTS = d.ts
+			}
+			i++
+		}
+		script = append(script, hlib.App("RdOk", hlib.Z(int64(k)), hlib.List(ms)))
+		obs = append(obs, hlib.List(od))
+	}
+	return hlib.App("KRecv", hlib.Bytes(in.NS), dgramOracle(msgs), hlib.Bool(in.Sock == "unixgram"), hlib.N(uint64(batch)),
+		hlib.List(script), hlib.List(obs), counts), mons
 }
